@@ -368,7 +368,17 @@ async def wire_case(backend, seed, counters, props=("C04", "C06", "C13"), nevent
     r = random.Random(seed)
     viols, nontrivial, inconcl = [], [], []
     compression = r.choice([None, "deflate"])
-    srv = e2e.Server(backend=backend, workers=1, mode=r.choice(["gunicorn", "uvicorn"]))
+    mode = r.choice(["gunicorn", "uvicorn", "uvicorn-ws"])
+    srv = e2e.Server(backend=backend, workers=1, mode="uvicorn" if mode.startswith("uvicorn") else "gunicorn", overrides={"message_timeout": 4})
+    if mode == "uvicorn-ws":
+        # uvicorn's `websockets` implementation - the one the repository's monkeypatch (compression factory) applies to
+        compression = "deflate"
+        srv.cfg["gunicorn"]["ws"] = "websockets"
+        import yaml
+
+        with open(srv.conf, "w") as fp:
+            yaml.safe_dump(srv.cfg, fp)
+    bump(counters.setdefault("e2e_server_modes", {}), mode)
     srv.start()
     rp = {"mode": "e2e", "backend": backend, "seed": seed}
     conns = []
@@ -490,6 +500,22 @@ async def wire_case(backend, seed, counters, props=("C04", "C06", "C13"), nevent
                 continue
             if not subm.deep_equal(got, ev):
                 V("C04", "not-verbatim/http", "GET /e/%s differs from what was accepted: %s vs %s" % (eid[:12], json.dumps(got)[:200], json.dumps(ev)[:200]))
+        # --- a connection with an open subscription that stays silent until the relay gives up on it (message_timeout 4 s):
+        # whatever the relay writes before it closes is a frame of a known shape
+        idle = await e2e.Client(srv, "idle", compression=compression).connect()
+        conns.append(idle)
+        await idle.send(["REQ", "idle-sub", {"kinds": kinds or [1], "limit": 2}])
+        t_idle = time.time()
+        while idle.closed is None and time.time() - t_idle < 15:
+            await asyncio.sleep(0.25)
+        bump(counters, "e2e_idle_timeouts")
+        if idle.closed is None:
+            inconcl.append("e2e wire: the idle connection was not closed 15 s after message_timeout 4")
+        for n, t in idle.frames:
+            bump(counters, "e2e_frames_checked")
+            pb = frame_shape_problem(t)
+            if pb:
+                V("C04", "frame-malformed/at-timeout", "frame %r written to a connection that was timing out: %s" % (t[:150] if isinstance(t, str) else t[:60], pb))
         st, hd, body = srv.http_get("/", {"Accept": "application/nostr+json"})
         try:
             doc = json.loads(body)
@@ -1602,6 +1628,11 @@ async def c10_case(workers, seed, counters, nevents=150):
             await c.close()
         del conns[:]
         srv.stop()
+        # start once more on the files (whatever start-up does to an environment that already holds events), stop again
+        srv.start()
+        await asyncio.sleep(1.0)
+        srv.stop()
+        bump(counters, "e2e_restarts_before_walk")
         d = dump.dump_lmdb(os.path.join(srv.dir, "lmdb"))
         problems = c10.check_keyspace(d)
         bump(counters, "e2e_keyspaces_walked")
@@ -1871,6 +1902,13 @@ async def query_case(backend, workers, seed, counters, nreqs=40):
         u = gen.Universe(seed)
         events = [e for e in u.store(60, hostile=False, history=False) if isinstance(e, dict)]
         accepted = {}
+        # every worker has answered queries BEFORE anything is stored (whatever a worker keeps from one query to the next -
+        # a snapshot, a plan, a cursor - is in place by then)
+        for c in list(byw.values()):
+            for f in ({"kinds": [1]}, {"authors": [u.keys[0].pk]}, {"#t": ["a"]}, {"since": 1}):
+                await ask(c, [f])
+        second_batch = events[45:]
+        events = events[:45]
         for i, ev in enumerate(events):
             c = ws[i % len(ws)]
             n0 = await c.send(["EVENT", ev])
@@ -1918,6 +1956,14 @@ async def query_case(backend, workers, seed, counters, nreqs=40):
                     V("C02", "workers-disagree/%s" % label, "REQ %s is answered differently by different worker processes (%s)" % (json.dumps(filters)[:200], [len(g) for g in got]))
 
         await sweep("running", ws)
+        # more events through ONE worker only, then everybody is asked again
+        for ev in second_batch:
+            n0 = await ws[0].send(["EVENT", ev])
+            fr = await ws[0].wait_for(lambda fr: [m for m in fr if isinstance(m, list) and m[:1] == ["OK"]], timeout=30, since=n0)
+            if fr and fr[-1][2] is True:
+                accepted[ev["id"]] = ev
+        await asyncio.sleep(1.0)
+        await sweep("after-more-events-through-one-worker", ws)
         for c in conns:
             await c.close()
         del conns[:]
@@ -1968,11 +2014,19 @@ async def c03_case(backend, workers, seed, counters):
         k1, k2, dg = ref.key_from_seed("e2e-c03-a"), ref.key_from_seed("e2e-c03-b"), ref.key_from_seed("e2e-c03-delegator")
         submitters = [cs[0] for cs in byw.values()]
         todo = []
+        kept = []
         for i in range(6):
             w_gen = submitters[i % len(submitters)]
             genuine = ref.make_event(k1, kind=1, created_at=T0 + i, tags=[["t", "g%d" % i]], content="genuine %d %d" % (seed, i), delegation=(dg, "kind=1") if i % 2 else None)
             n0 = await w_gen.send(["EVENT", genuine])
             await w_gen.wait_for(lambda fr: [m for m in fr if isinstance(m, list) and m[:1] == ["OK"]], timeout=30, since=n0)
+            if i % 3 == 0:
+                # the genuine event is removed again by its author: what comes back under its id has to be verified afresh
+                n0 = await w_gen.send(["EVENT", ref.make_event(k1, kind=5, created_at=T0 + 500 + i, tags=[["e", genuine["id"]]], content="del")])
+                await w_gen.wait_for(lambda fr: [m for m in fr if isinstance(m, list) and m[:1] == ["OK"]], timeout=30, since=n0)
+                await asyncio.sleep(0.3)
+            else:
+                kept.append(genuine)
             variants = [
                 ("same-id-and-sig-other-content", dict(genuine, content="FORGED %d" % i)),
                 ("same-id-and-sig-other-tags", dict(genuine, tags=[["t", "FORGED-%d" % i]])),
@@ -2008,6 +2062,23 @@ async def c03_case(backend, workers, seed, counters):
                     V("pushed", "a forgery was pushed to a subscriber on worker %s: %s" % (wc.worker, json.dumps(ev)[:200]))
                     break
         bump(counters, "e2e_watchers_checked", len(watchers))
+        # ---- after a restart on the same files: an event stored before it is removed by its author, then its id comes back
+        # around other content
+        for c in conns:
+            await c.close()
+        del conns[:]
+        srv.stop()
+        srv.start()
+        c = await e2e.Client(srv, "after-restart").connect()
+        conns.append(c)
+        todo = []
+        for g in kept[:3]:
+            n0 = await c.send(["EVENT", ref.make_event(k1, kind=5, created_at=T0 + 900, tags=[["e", g["id"]]], content="del after restart")])
+            await c.wait_for(lambda fr: [m for m in fr if isinstance(m, list) and m[:1] == ["OK"]], timeout=30, since=n0)
+            todo.append(("stored-before-restart/removed/same-id-and-sig-other-content", dict(g, content="FORGED after restart"), "restart"))
+        await asyncio.sleep(0.5)
+        await asyncio.gather(*[offer(1000 + j, *t) for j, t in enumerate(todo)])
+        bump(counters, "e2e_forgeries_after_restart", len(todo))
     finally:
         for c in conns:
             await c.close()
